@@ -9,6 +9,7 @@ import (
 	distrtypes "github.com/cosmos/cosmos-sdk/x/distribution/types"
 
 	jtypes "github.com/jackalLabs/canine-chain/v4/types"
+	mintkeeper "github.com/jackalLabs/canine-chain/v4/x/jklmint/keeper"
 	storagetypes "github.com/jackalLabs/canine-chain/v4/x/storage/types"
 )
 
@@ -115,4 +116,12 @@ func sortedIntKeys(m map[string]sdk.Int) []string {
 	}
 	sort.Strings(ks)
 	return ks
+}
+
+func devGrantsAddr() (string, error) {
+	a, err := mintkeeper.GetDevGrantsAccount()
+	if err != nil {
+		return "", err
+	}
+	return a.String(), nil
 }
